@@ -29,7 +29,7 @@ Definition status_200 (content : option bytes) : bool :=
 Definition answers_200 (validates : bool) (r : reply) : bool :=
   match r with
   | RData c sig_ok => (sig_ok || negb validates) && status_200 c
-  | RNack | RTimeout => false
+  | RNack _ | RTimeout => false      (* a Nack is a failure whatever reason it carries *)
   end.
 
 Definition outcome_ok (validates : bool) (o : obs) : bool :=
